@@ -1,1 +1,56 @@
-theorem C08_placeholder : True := trivial
+import JmesVerif.Lemmas.JsonRoundTrip
+import JmesVerif.Lemmas.SerdeValue
+import JmesVerif.Model.Interp
+import JmesVerif.Model.Parser
+/-!
+# C08 — JSON data passes through unchanged: identity query and text round-trip
+
+Two layers:
+
+* the repository's own code — the identity query (`C08_identity_query`), the conversions to and
+  from `serde_json::Value` (`C08_value_roundtrip`) — proved outright;
+* the JSON *text* layer, which is serde_json's: modelled (`Model/JsonText`, `Model/JsonPrint`) and
+  validated by the `json` stream.  `C08_parse_print`: parsing the printed text of a value gives the
+  value back, for every nesting < 128, every string (all code points, escapes), every integer in
+  the u64 / negative-i64 range, under the single hypothesis `FloatRoundTrips` about doubles
+  (`parse (print f) = f`).  That hypothesis is **false for some doubles** with serde_json's default
+  number parser (the re-read of a 17-digit numeral can be one unit in the last place off — the
+  documented accuracy); the check measures this on the real code and accepts ≤ 2 ulp, as the
+  property does.  `C08_parse_print_noFloat` is the unconditional statement for float-free values.
+-/
+namespace JmesVerif
+
+/-- searching with `@` returns the document itself -/
+theorem C08_identity_query (rt : Registry) (d : Val) (fuel : Nat) :
+    parseExpr ['@'] = .ok (.mk .at [], .identity 0) ∧ search rt (fuel + 1) (.identity 0) d = .ok d := by
+  constructor
+  · simp [parseExpr, tokenize, Lexer.loop, Lexer.lexOne, Lexer.isIdStart, Lexer.utf8Len, parseTokens, Parser.expr,
+      Parser.nud, Parser.loop, Parser.peekT, Tok.lbp]
+  · simp [search, interp]
+
+/-- **printing a value and re-parsing the text yields the value** -/
+theorem C08_parse_print (v : Val) (hv : v.Printable FloatRoundTrips) :
+    JsonText.parse (JsonPrint.compact v).toList = some v := parse_compact v hv
+
+theorem C08_parse_print_pretty (v : Val) (hv : v.Printable FloatRoundTrips) :
+    JsonText.parse (JsonPrint.pretty 0 v).toList = some v := parse_pretty v hv
+
+theorem C08_parse_print_noFloat (v : Val) (hv : v.Printable (fun _ => False)) :
+    JsonText.parse (JsonPrint.compact v).toList = some v := parse_compact_noFloat v hv
+
+/-- strings keep every code point through print and parse (escapes incl. `\u00XX`) -/
+theorem C08_string_roundtrip (s : String) : JsonText.parse (JsonPrint.compact (.str s)).toList = some (.str s) :=
+  parse_compact_noFloat (.str s) (by simp [Val.Printable, JsonRT.Shape, JsonRT.depth])
+
+/-- **conversion to and from serde_json's generic value type is lossless** on library values -/
+theorem C08_value_roundtrip (v : Val) (hj : v.isJson = true) (hs : v.Sorted) : v.toJValue.toVal = v :=
+  toJValue_toVal v hj hs
+
+end JmesVerif
+
+#print axioms JmesVerif.C08_identity_query
+#print axioms JmesVerif.C08_parse_print
+#print axioms JmesVerif.C08_parse_print_pretty
+#print axioms JmesVerif.C08_parse_print_noFloat
+#print axioms JmesVerif.C08_string_roundtrip
+#print axioms JmesVerif.C08_value_roundtrip
